@@ -7,6 +7,7 @@ pub fn dispatch(kind: u32, v: &Val) -> Option<Val> {
     match kind {
         201 => Some(run_reader(v, true)),
         202 => Some(run_reader(v, false)),
+        203 => Some(run_reader_twice(v)),
         _ => None,
     }
 }
@@ -53,5 +54,33 @@ pub fn run_reader(v: &Val, raw: bool) -> Val {
     }
     let rdr = ScriptedReader { rest: input, at: 0, hist: decode_hist(v.fld(6)) };
     let r = if raw { searcher.verif_search_reader_raw(&m, rdr, &mut sink) } else { searcher.search_reader(&m, rdr, &mut sink) };
+    result_val(r, sink)
+}
+
+/// kind 203: the same Searcher searches twice (as `rg` does for every file of a directory walk); the result
+/// of the second search of the case's input must not depend on the first.  First input: the case's input
+/// followed by one more line (a different length, so stale offsets show).
+pub fn run_reader_twice(v: &Val) -> Val {
+    let cfg = decode_cfg(v.fld(0));
+    let m = decode_matcher(&cfg, v.fld(1));
+    let input = v.fld(2).bytes();
+    let cap = v.fld(4).us();
+    let mut sb = searcher_builder(&cfg);
+    if let Some(extra) = v.fld(5).opt() {
+        sb.heap_limit(Some(65536 + extra.us()));
+    }
+    sb.verif_buffer_capacity(Some(cap));
+    let mut searcher = sb.build();
+    if searcher.multi_line_with_matcher(&m) {
+        return Val::L(vec![Val::N(9)]);
+    }
+    let mut first = input.clone();
+    first.extend_from_slice(b"ab");
+    first.push(line_term(&cfg).as_byte());
+    let mut sink0 = LogSink::new(Reply { at: None });
+    let _ = searcher.search_reader(&m, ScriptedReader { rest: first, at: 0, hist: Default::default() }, &mut sink0);
+    let mut sink = LogSink::new(decode_reply(v.fld(3)));
+    let rdr = ScriptedReader { rest: input, at: 0, hist: decode_hist(v.fld(6)) };
+    let r = searcher.search_reader(&m, rdr, &mut sink);
     result_val(r, sink)
 }
